@@ -38,7 +38,9 @@ Fixpoint sd (fuel : nat) (s : schema) (bs : bytes) {struct s} : out datum :=
             (fun kvs r => Done (DMap kvs) r)
   | SUnion branches =>
       obind (rd_varint_canon bs) (fun idx r =>
-        if idx <? 0 then Err
+        (* the upper bound is what [pick] finds anyway; tested first so that evaluation
+           never builds the unary number of a hostile selector *)
+        if (idx <? 0) || (Z.of_nat (length branches) <=? idx) then Err
         else (fix pick (l : list schema) (i : nat) {struct l} : out datum :=
                 match l, i with
                 | [], _ => Err
